@@ -1383,8 +1383,7 @@ def far_judge(ctx, name, opts, eff, t, xs, rep0):
             okp = False
             fail("forward-not-finite", {"method": "forward", "x_at_index": x, "index": i, "output": f,
                                         "jacobian": j},
-                 f"forward({x!r}) = {f!r} at {region} (jacobian there: {j!r}): forward has no derivative at x, "
-                 "and takes this value at every such point - not increasing")
+                 f"forward({x!r}) = {f!r} at {region} (jacobian there: {j!r}): forward has no derivative at x")
         if okp:
             good.append(i)
     # ---- the stencil (vectorised over the points at which it fits)
